@@ -206,6 +206,7 @@ type vfIntent struct {
 	LoginUser string // submitted (raw) username of a login attempt
 	LoginPw   string
 	Role      *vfRoleReq
+	Inject    *vfInject
 }
 
 type vfCertReq struct {
